@@ -17,6 +17,9 @@ Deciding method.  The TLA+ modules ExprLang / ExprParse are the oracle:
   predicts; the harness feeds the string to the real `expr @ ns`, `ns.x_ij = expr`
   (expression_v2) and `ns.eval_ij(expr)` (expression_v1) and compares exception class,
   shape, axis order and values on both sides of an interface.
+* The language only expression_v1 has (arguments with deduced axis lengths, dirac,
+  gradients, normal, substitution, calls with several arguments) has its own pair of
+  modules ExprV1Lang / ExprV1Parse and its own replay: see c19_v1.py.
 """
 
 import collections
@@ -87,12 +90,13 @@ def stratified(cases, per_class, per_valid, rng):
 
 
 def model_phase(rep):
-    """all TLC work: returns the namespace tables and the emitted cases per family"""
+    """all TLC work: returns the namespace tables and the emitted cases per family, and the same for the version 1 part"""
     import concurrent.futures
+    from . import c19_v1
     quick = rep.tier == 'quick'
     # exhaustive runs: lists of families, one TLC process each
     if quick:
-        exh = [['FamCore', 'FamRank3', 'FamGen', 'FamPerm', 'FamSummed', 'FamMut', 'FamMut3', 'FamCor', 'FamV1q']]
+        exh = [['FamCore', 'FamRank3', 'FamGen'], ['FamPerm', 'FamSummed', 'FamMut', 'FamMut3', 'FamCor', 'FamV1q']]
         sim = ['FamSimV', 'FamSimM', 'FamSimC', 'FamSimVO']
     else:
         exh = [['FamCore0', 'FamMut2', 'FamMut3', 'FamCor2', 'FamRank3', 'FamGen'], ['FamPerm2', 'FamSummed3', 'FamV1', 'FamV1b'], ['FamThree'], ['FamThreeV']]
@@ -108,7 +112,8 @@ def model_phase(rep):
     jobs['coverage'] = lambda: run_tlc('c19-cover', ['FamCov'], bare=True, coverage=True, timeout=tmo)
     for bug in mutants:
         jobs['mutant:' + bug] = (lambda bug: lambda: run_tlc('c19-mutant-' + bug, [SPEC_MUTANTS[bug]], bug=bug, timeout=tmo))(bug)
-    with concurrent.futures.ThreadPoolExecutor(max_workers=6) as pool:
+    jobs.update(c19_v1.jobs(rep))
+    with concurrent.futures.ThreadPoolExecutor(max_workers=min(12, os.cpu_count() or 4)) as pool:
         futs = {k: pool.submit(f) for k, f in jobs.items()}
         results = {k: f.result() for k, f in futs.items()}
     rep.lap('tlc')
@@ -148,7 +153,7 @@ def model_phase(rep):
     for name, d in byfam.items():
         rep.constants[name] = dict(trees=len(d), valid=sum(c['ok'] == 'ok' for c in d.values()), invalid=sum(c['ok'] == 'bad' for c in d.values()))
 
-    return tables, dict(byfam), sim
+    return tables, dict(byfam), sim, c19_v1.collect(rep, results)
 
 
 def replay_phase(rep, tables, byfam, sim):
@@ -229,13 +234,21 @@ def replay_phase(rep, tables, byfam, sim):
 
 
 def run(rep):
-    tables, byfam, sim = model_phase(rep)
+    from . import c19_v1
+    tables, byfam, sim, (tables1, byfam1, sim1) = model_phase(rep)
     replay_phase(rep, tables, byfam, sim)
-    rep.rule = ('cases = (expression string, verdict) pairs emitted by the ExprParse TLA+ machine, replayed on expression_v2 (`@`, attribute '
-                'assignment) and, where the syntax is shared, expression_v1 (eval_...); non-trivial = at least two productions')
+    c19_v1.replay_phase(rep, tables1, byfam1, sim1, random.Random(rep.seed + 1))
+    rep.rule = ('cases = (expression string, verdict) pairs emitted by the ExprParse / ExprV1Parse TLA+ machines, replayed on expression_v2 (`@`, attribute '
+                'assignment) and expression_v1 (eval_..., attribute assignment, `@`; namespaces without and with a fallback length); non-trivial = at least two productions')
     rep.assumptions += [
         'ExprLang.tla (Chk, Val) is the documented reading; TLC shows the v2 algorithm model (ExprParse.P) equivalent to it within the bounds',
         'variables are piecewise constant on two elements and evaluated in the interface point; functions: sqr, abs, opposite and linear generating functions g, h, G (stand-ins for gradients)',
         'integer ** negative integer (refused by the array layer as by NumPy) and values the exact model leaves undefined (division by zero, roots, capped magnitudes) are not judged',
-        'v1-only syntax (arguments, dirac, stack, gradients _,i, normals, substitution) is outside the model; error messages are not compared',
+        'ExprV1Lang.tla (Ann1, ClassOf, Val1) is the documented reading of the version 1 only language; TLC shows the model of the _Array bookkeeping (ExprV1Parse.Q: groups of '
+        'linked lengths) equivalent to it within the bounds; its meaning is compared with the real namespace only (no model of _eval_ast)',
+        'version 1 world: quadratic data on a two-element 2D mesh evaluated in the midpoint of the straight interface (normal (1, 0), zero derivative); arguments get values by a fixed '
+        'formula of their deduced shape; substituted values are built from numbers, constant arrays and arguments (function.replace_arguments refuses arrays bound to the mesh)',
+        'outside the model: stack <a, b>_i, consumed axes f:i(...), generated axes f_i(...) and J:x / d:x of version 1; derivatives of order three or more through quotients and powers, '
+        'derivatives to an argument of a substituted expression (emitted as undefined, not judged); the syntaxes `_,x_i`, `n:x_i`, `dx_i:u`, `_,?u` the parser answers with '
+        'SyntaxError("no longer supported"); error messages are not compared',
     ]
